@@ -288,6 +288,24 @@ def run_check(prop, tier, verif_seed, procs=None, out_evidence=True, max_runs=No
     if bad:
         print(f'HARNESS-ERROR nondeterministic digest for idx {bad[0]["idx"]} seed {bad[0]["seed"]}', file=sys.stderr)
         return 2
+    fresh_interpreter_rechecks = 0
+    if tier == 'thorough' and max_runs is None and not os.environ.get('VERIF_NO_SELFTEST'):
+        # same seed -> same digest in a FRESH interpreter under another hash seed and another shard count
+        n_st = min(plan.get('selftest_n', 48), len(runs))
+        env = dict(os.environ, PYTHONHASHSEED='1')
+        pr = subprocess.run([sys.executable, os.path.join(VERIF, 'check.py'), 'digests', prop, '--n', str(n_st), '--procs', '5', '--tier', tier],
+                            capture_output=True, text=True, env=env, timeout=3600)
+        line = [l for l in pr.stdout.splitlines() if l.startswith('DIGESTS ')]
+        if pr.returncode != 0 or not line:
+            print('HARNESS-ERROR determinism self-test could not run\n' + pr.stderr[-1500:], file=sys.stderr)
+            return 2
+        other = json.loads(line[0][8:])
+        mine = {str(r['idx']): r['digest'] for r in runs}
+        diff = [k for k, v in other.items() if k in mine and mine[k] != v]
+        if diff:
+            print(f'HARNESS-ERROR digests differ in a fresh interpreter (PYTHONHASHSEED=1) for run indices {diff[:8]}', file=sys.stderr)
+            return 2
+        fresh_interpreter_rechecks = len([k for k in other if k in mine])
 
     # ---- aggregate
     probes, faults = {}, {}
@@ -415,6 +433,7 @@ def run_check(prop, tier, verif_seed, procs=None, out_evidence=True, max_runs=No
             'components': eng.COMPONENTS,
             'repo_root': root,
             'determinism_rechecks': sum(1 for r in runs if 'recheck' in r),
+            'fresh_interpreter_digest_rechecks': fresh_interpreter_rechecks,
             'known_findings_hit': [k['what'] for k, _ in known_hits.values()],
             'replays': replay_paths,
             'procs': procs,
